@@ -52,8 +52,10 @@ CLAIMS = {
              "exact decisions are full theorems (C05_prefix, C05_postfix, C05_exact: for every configuration, haystack, already-normalized needle and representation pair other than "
              "K1's, the matcher succeeds iff the needle equals the normalized haystack text at the start / at the end / as a whole, leading or trailing haystack whitespace - by the "
              "representation's own predicate - being skipped unless the needle itself starts / ends with whitespace; including all-whitespace haystacks, where the code's "
-             "unwrap_or(0) skips nothing but a normalized whitespace character can not equal a non-whitespace needle character). The substring statement (leftmost best-bonus "
-             "occurrence) is evaluated by the oracle on every case; its one-character instance is a theorem (C04_one_char_optimum_ascii). K1 is a KNOWN-FINDING."),
+             "unwrap_or(0) skips nothing but a normalized whitespace character can not equal a non-whitespace needle character). The substring statement is a theorem for ASCII haystacks "
+             "(C05_substring_ascii: substring_match_ascii succeeds iff the needle occurs contiguously in the normalized haystack and its first reported index is the leftmost "
+             "occurrence whose first character earns the highest bonus - acceptance test = occurrence for every prefilter shape the code selects, scan invariant, the specification's "
+             "fold characterised; its one-character instance is C04_one_char_optimum_ascii); for code-point haystacks it is evaluated by the oracle on every case. K1 is a KNOWN-FINDING."),
     "C10": dict(
         technique="Lean 4 theorem over all sizes about the translated slab layout + run-time extents hook + overflow-checked correspondence with poisoned slab",
         text="Theorem (all window and needle lengths, both character sizes): the five views MatrixSlab::alloc hands out are inside the slab, pairwise disjoint and aligned; view and layout "
